@@ -1,4 +1,4 @@
-"""C16  Settled offline results are stable under trace extension (discrete time decided; dense time stated as not decided).
+"""C16  Settled offline results are stable under trace extension (discrete time on the operator summaries; dense time: reach of the held last sample).
 
 Footprint argument.  For every operator of the discrete-time offline monitor the operator summary (pointwise term with
 shifted operands, scan with its direction, window of offsets with its fill values) tells which operand positions the
@@ -7,6 +7,11 @@ positions outside the trace).  R-FOOTPRINT: the largest offset an operator reads
 counts for it (upper bound of a bounded future operator, 1 for next, 0 otherwise); a past operator reads no positive
 offset; the fill value of the right boundary is read only for positions >= n.  By induction over the formula the value
 at t then depends on inputs up to t + h only, and for t + h < |w1| no fill is involved, so w1 and every extension agree.
+Dense time: extending a trace only changes what the hold-to-infinity of the last sample stood for.  The merge kernel emits at
+max(starts) over overlaps of operands extended by [inf, last value] (R-ORD), untimed past operators are forward scans, and in the
+sliding-window kernels the only unbounded influence interval is the last sample's, starting at T[last]+begin (past) or
+T[last]-end (future) (R-SEGBUILD, R-SEGSTEP, R-COMPOSE, R-FORWARD) -- so the held value cannot reach a time t with t + h before
+the end of the trace.
 """
 import ast
 
@@ -50,6 +55,28 @@ def _max_offset(term, ranges=()):
     if h == 'red':
         return _max_offset(term[5], tuple(ranges) + ((term[2], term[3], term[4]),))
     return []
+
+
+class _Relabel(object):
+    """report proxy: files another rule's instances under this property's rule name"""
+    def __init__(self, rep, prefix, rule='R-FOOTPRINT'):
+        self._r = rep
+        self._rule = rule
+
+    def fail(self, rule, rel, sym, slot, msg, line=None, *a, **k):
+        self._r.fail(self._rule, rel, sym, slot, '[%s] %s' % (rule, msg), line)
+
+    def ok(self, rule, rel, sym, slot, msg='', line=None, *a, **k):
+        self._r.ok(self._rule, rel, sym, slot, msg, line)
+
+    def __getattr__(self, k):
+        return getattr(self._r, k)
+
+
+def mirror_handler(ix, mon, d, name):
+    from sa.rules import mirror
+    nodes = M.node_by_name(ix)
+    return mirror._handler(ix, mon, d, nodes[name])
 
 
 def check(ix, rep):
@@ -137,12 +164,75 @@ def check(ix, rep):
             if s2.endswith(':' + name):
                 rep.fail('R-WINDOW', rel, sym, s2, msg, line)
     rep.floor('bounded operators with a footprint', nb, 6)
-    # dense time: stated, not decided
+    # ---- dense time: where can the hold-to-infinity of the last sample reach?
+    from sa.rules import ordkernel, densesum
+    from sa.rules import stackstep as SS
     dm = {m.kind: m for m in M.standard_monitors(ix)}['dense-offline']
-    rep.undecided('R-FOOTPRINT', dm.visitor.module.rel, dm.visitor.name, 'dense-offline', 'dense time: the last sample is held to infinity by the merge kernel and the segment kernels; '
-                  'which output segments are settled is interval arithmetic this check does not decide', None)
+    KERNEL = 'rtamt.semantics.stl.dense_time.offline.intersection'
+    # (1) binary merge: emits at max(p1, p2) over the overlap only, operands extended by [inf, last value]: the output at t < min(ends) reads the operands at t
+    q2 = c02._Quiet(rep)
+    nord, narms, used = ordkernel.check_kernel(ix, _Relabel(rep, 'dense-offline:merge'), KERNEL)
+    ordkernel.check_finitary(ix, _Relabel(rep, 'dense-offline:merge'), KERNEL)
+    # (2) per-operator summaries: pointwise / forward scans for the untimed past operators
+    dd = D.dispatch_of(ix, dm.cls)
+    nd = 0
+    for nc in D.node_classes(ix):
+        meth, _ = dd.method_for(nc, ix)
+        cat, info, f = D.classify(ix, dm.cls, meth) if meth else ('missing', None, None)
+        if cat != 'compute' or nc.name in ('Constant', 'Variable', 'Predicate') or nc.name in windowrule.BOUNDED:
+            continue
+        nf, _p, _t = densesum.summarize_offline_handler(ix, f)
+        slot = 'dense-offline:%s' % nc.name
+        rep.analysed(f)
+        if nf[0] == 'unknown':
+            rep.error('%s (%s): dense handler of %s not summarised (%s)' % (f.where, f.qual, nc.name, nf[1]))
+            continue
+        nd += 1
+        if nf[0] == 'scan':
+            if nc.name in UNBOUNDED_FUTURE:
+                rep.ok('R-FOOTPRINT', f.module.rel, f.qual, slot, 'unbounded future operator: outside the property', f.node.lineno)
+            elif nf[1] == 'fwd':
+                rep.ok('R-FOOTPRINT', f.module.rel, f.qual, slot, 'forward scan: the value at t depends on the operands up to t', f.node.lineno)
+            else:
+                rep.fail('R-FOOTPRINT', f.module.rel, f.qual, slot, 'past operator %s is computed by a backward scan: its value at t depends on samples after t' % nc.name, f.node.lineno)
+        else:
+            rep.ok('R-FOOTPRINT', f.module.rel, f.qual, slot, 'pointwise through the merge kernel / per-sample loop: the value at t depends on the operands at t', f.node.lineno)
+    rep.floor('dense-time untimed operators with a footprint', nd, 20)
+    # (3) bounded operators: the only unbounded influence interval is the last sample's, and it starts at T[last]+begin (past) / T[last]-end (future),
+    #     i.e. outside [0, end of trace - reach); the merge step keeps every segment inside its own interval
+    mm = ix.module('rtamt.semantics.stl.dense_time.offline.ast_visitor')
+    nk = 0
+    for opn in ('once', 'historically', 'always', 'eventually'):
+        kf = mm.functions.get(opn + '_timed_operation')
+        if kf is None:
+            rep.error('kernel %s_timed_operation vanished' % opn)
+            continue
+        rep.analysed(kf)
+        col = _Collect(rep)
+        SS.check_build(ix, col, kf, opn, slot_prefix='dense-offline:')
+        SS.check_function(ix, col, kf, opn, slot_prefix='dense-offline:')
+        for e in col.errors:
+            rep.error(e)
+        nk += 1
+        slot = 'dense-offline:%s_timed' % opn
+        if col.fails:
+            for (rule, rel, sym, s2, msg, line) in col.fails[:3]:
+                rep.fail('R-FOOTPRINT', rel, sym, '%s:%s' % (slot, s2), 'the influence of the held last sample is not confined: [%s] %s' % (rule, msg), line)
+        else:
+            rep.ok('R-FOOTPRINT', kf.module.rel, kf.qual, slot, 'the only unbounded influence interval is the last sample\'s and starts at T[last] %s: it cannot reach t with t + reach < end of trace'
+                   % ('+ begin' if opn in ('once', 'historically') else '- end'), kf.node.lineno)
+    for which in ('since', 'until'):
+        kf = mm.functions.get(which + '_timed_operation')
+        if kf is not None:
+            rep.analysed(kf)
+            SS.check_compose(ix, _Relabel(rep, None, rule='R-FOOTPRINT'), kf, which)
+    for nn in SS.FORWARD:
+        hf = mirror_handler(ix, dm, dd, nn)
+        if hf is not None:
+            SS.check_forward(ix, _Relabel(rep, None, rule='R-FOOTPRINT'), dm.cls, hf, nn)
+    rep.floor('dense-time sliding-window kernels with a confined last-sample influence', nk, 4)
     explanation = __doc__.split('\n\n', 1)[1].strip().replace('\n', ' ')
     assumptions = ['hand lemma: composition of footprints along the nesting of a formula (sum of the reaches of nested future operators = the horizon of the property)',
-                   'dense time is NOT decided: a change that leaks the held last value into settled dense-time output is invisible to this check',
+                   'dense time: decided as "the hold-to-infinity of the last sample cannot reach the settled region" (merge kernel contract, forward scans, influence intervals of the sliding-window kernels); the stack invariant of the kernels is a hand lemma (C04)',
                    'that each operator computes the right function on its footprint is C01']
     return explanation, assumptions, 'one instance per operator of the discrete-time offline monitor', {'exhaustive': True}
